@@ -2,3 +2,13 @@ import XPathV.Theorems.C13
 #print axioms XPathV.Theorems.C13.abs_start_indep
 #print axioms XPathV.Theorems.C13.group_preserves_sequence
 #print axioms XPathV.Theorems.C13.rel_compose_child
+#print axioms XPathV.Theorems.C13.C13_absolute_spec
+#print axioms XPathV.Theorems.C13.C13_absolute_build
+#print axioms XPathV.Theorems.C13.C13_compose_spec
+#print axioms XPathV.Theorems.C13.C13_relative_compose
+#print axioms XPathV.Theorems.C13.C13_relative_compose_spec
+#print axioms XPathV.Theorems.C13.C13_absolute_after_anything
+#print axioms XPathV.Theorems.C13.C13_wrap_true
+#print axioms XPathV.Theorems.C13.C13_wrap_group
+#print axioms XPathV.Theorems.C13.C13_wrap_union_self
+#print axioms XPathV.Theorems.C13.C13_wrap_not_not
